@@ -64,7 +64,7 @@ META = {
     },
     "C05": {
         "title": "WebSocket connections close exactly once, in order, and in bounded time",
-        "budgets": {"quick": (60000, 55), "thorough": (4000000, 900)},
+        "budgets": {"quick": (300000, 55), "thorough": (6000000, 900)},
         "variants": ALL_VARIANTS,
         "rule": ("one run = one seeded schedule over {flush, segmented delivery, FIN, RST, timer tick / partial clock "
                  "advance, local sendClose variants / send / ping / synced+chopped writes / app drop, peer close frames "
